@@ -456,6 +456,62 @@ def execAll (st : State) : List Micro → Option State
     | none => none
 
 -- ---------------------------------------------------------------------------------------------
+-- `List::sort()`: the quicksort of List.hpp on node indices.  It relinks nothing and constructs / destroys no stored element:
+-- `QuickSort::swap(a, b)` is `T tmp = a->value; a->value = b->value; b->value = tmp;` - one temporary per call and two
+-- assignments to value objects.  The control flow depends on the comparisons `ptr2->value < pivot` only; their outcomes are
+-- taken from an oracle list while it lasts (an arbitrary, possibly inconsistent `operator<`), the honest `<` on payloads afterwards.
+
+def cmpLt (orc : List Bool) (a b : Nat) : Bool × List Bool :=
+  match orc with
+  | r :: rest => (r, rest)
+  | [] => (decide (a < b), [])
+
+/-- payload list after `swap(a, b)` -/
+def swapVals (vals : List Nat) (a b : Nat) : List Nat := (vals.set a (vals.getD b 0)).set b (vals.getD a 0)
+
+/-- the two assignments of `swap(a, b)`; the temporary `tmp` (payload of a) is the caller-side object `.ext` -/
+def swapMicros (c : Var) (vals : List Nat) (a b : Nat) : List Micro :=
+  [.assignVal c a (.item c b 1), .assignVal c b (.ext (vals.getD a 0))]
+
+structure SortSt where
+  p0 : Nat
+  p1 : Nat
+  vals : List Nat
+  ms : List Micro
+  orc : List Bool
+
+/-- the `do ... while(ptr2 != right)` loop: `cnt` iterations, `p2` = the node `ptr2` of this iteration -/
+def sortLoop (c : Var) (pivot : Nat) : Nat → Nat → SortSt → SortSt
+  | 0, _, s => s
+  | cnt + 1, p2, s =>
+    if (cmpLt s.orc (s.vals.getD p2 0) pivot).1 then
+      sortLoop c pivot cnt (p2 + 1)
+        ⟨s.p1, s.p1 + 1, swapVals s.vals (s.p1 + 1) p2, s.ms ++ swapMicros c s.vals (s.p1 + 1) p2,
+          (cmpLt s.orc (s.vals.getD p2 0) pivot).2⟩
+    else sortLoop c pivot cnt (p2 + 1) { s with orc := (cmpLt s.orc (s.vals.getD p2 0) pivot).2 }
+
+/-- `QuickSort::sort(left, right)` (left < right); `none` = out of fuel (never: the ranges shrink) -/
+def sortRange (c : Var) : Nat → Nat → Nat → List Nat → List Bool → Option (List Nat × List Micro × List Bool)
+  | 0, _, _, _, _ => none
+  | fuel + 1, left, right, vals, orc =>
+    let s := sortLoop c (vals.getD left 0) (right - left) (left + 1) ⟨left, left, vals, [], orc⟩
+    let ms := s.ms ++ swapMicros c s.vals left s.p1
+    let vals1 := swapVals s.vals left s.p1
+    let p1 := if s.p1 = right then s.p1 else s.p1 + 1
+    match (if left = s.p0 then some (vals1, [], s.orc) else sortRange c fuel left s.p0 vals1 s.orc) with
+    | none => none
+    | some (vals2, ms1, orc2) =>
+      match (if p1 = right then some (vals2, [], orc2) else sortRange c fuel p1 right vals2 orc2) with
+      | none => none
+      | some (vals3, ms2, orc3) => some (vals3, ms ++ ms1 ++ ms2, orc3)
+
+/-- the micro steps of `l.sort()` in state st -/
+def sortMicros (st : State) (v : Nat) (orc : List Bool) : Option (List Micro) :=
+  let n := (st.nodes ⟨.L, v⟩).items.length
+  if n < 2 then some []
+  else (sortRange ⟨.L, v⟩ n 0 (n - 1) ((st.nodes ⟨.L, v⟩).items.map fun it => (valOf st it).getD 0) orc).map fun r => r.2.1
+
+-- ---------------------------------------------------------------------------------------------
 -- operations (the public functions of the containers, as the harness calls them)
 
 inductive Op
@@ -475,6 +531,7 @@ inductive Op
   | lInsertRef (v : Nat) (pos : Option Nat) (i : Nat)
   | lInsertList (v : Nat) (pos : Option Nat) (w : Nat)
   | lRemove (v i : Nat) | lRemoveVal (v x : Nat) | lRemoveValRef (v i : Nat) | lSet (v i x : Nat)
+  | lSort (v : Nat) (orc : List Bool)      -- `sort()`; orc = outcomes of the first comparisons `a < b` of the element type (any comparator)
   -- Map / MultiMap (c.k = M or U)
   | mInsert (c : Var) (k x : Nat)
   | mInsertHint (c : Var) (pos k x : Nat)
@@ -503,6 +560,14 @@ deriving Repr
 def guard' (b : Bool) (ms : List Micro) : Option (List Micro) := if b then some ms else none
 
 def len (st : State) (c : Var) : Nat := (st.nodes c).items.length
+
+/-- MultiMap::insert(hint, k, v): k is not below the key of the hinted item and equals the key of its successor -/
+def hintAmbiguous (st : State) (c : Var) (pos k : Nat) : Bool :=
+  match (st.nodes c).items[pos]?, (st.nodes c).items[pos + 1]? with
+  | some p, some nx =>
+    (match keyOf st p with | some kp => decide (kp ≤ k) | none => true) &&
+    (match keyOf st nx with | some kn => decide (kn = k) | none => true)
+  | _, _ => false
 
 /-- copy every item of w into c (`for(i = other.begin; i != end; ++i) insert(i->key, i->value)`) -/
 def copyItems (c w : Var) (n : Nat) : List Micro :=
@@ -571,11 +636,16 @@ def compile (st : State) : Op → Option (List Micro)
   | .lRemoveVal v x => guard' (v ≤ 1) [.removeVal ⟨.L, v⟩ (.ext x)]
   | .lRemoveValRef v i => guard' (v ≤ 1 && i < len st ⟨.L, v⟩) [.removeVal ⟨.L, v⟩ (.item ⟨.L, v⟩ i 1)]
   | .lSet v i x => guard' (v ≤ 1 && i < len st ⟨.L, v⟩) [.assignVal ⟨.L, v⟩ i (.ext x)]
+  | .lSort v orc => guard' (v ≤ 1 && (sortMicros st v orc).isSome) ((sortMicros st v orc).getD [])
   -- Map / MultiMap
   | .mInsert c k x => guard' (c.v ≤ 1 && (c.k = .M || c.k = .U)) [.put c none (some (.ext k)) (some (.ext x))]
   | .mInsertHint c pos k x =>
-    -- MultiMap: only with a key not yet present (inside a run of equal keys the position depends on the tree shape)
-    guard' (c.v ≤ 1 && (c.k = .M || (c.k = .U && (findField st 0 k (st.nodes c).items).isNone)) && pos ≤ len st c)
+    -- MultiMap: in every case but one the new item lands where the plain insert puts it (after the keys ≤ k): hint = end(); k below the
+    -- hinted item (fits before it, or not: root insertion); k not below it and below its successor / it is the last (directly after it);
+    -- k above the successor (root insertion).  The one exception is not executable here: k not below the hinted item and EQUAL to the
+    -- key of its successor - the item is then inserted into the right subtree of the hinted node, i.e. after those of the equal keys
+    -- that happen to be in that subtree (depends on the tree shape, which this model abstracts)
+    guard' (c.v ≤ 1 && (c.k = .M || (c.k = .U && !hintAmbiguous st c pos k)) && pos ≤ len st c)
       [.put c none (some (.ext k)) (some (.ext x))]
   | .mInsertRef c k i =>
     guard' (c.v ≤ 1 && (c.k = .M || c.k = .U) && i < len st c) [.put c none (some (.ext k)) (some (.item c i 1))]
